@@ -382,7 +382,10 @@ def run_check(prop: str, *, lean_modules: list[str], required_theorems: list[str
     broken += infra_errors
 
     # §5: something that ties the theorems to the code no longer checks -> search for an input
-    if broken and not violations and search is not None:
+    def _is_known(v: Violation) -> bool:
+        return any(fnmatch.fnmatchcase(v.key, k[0]) for k in known_here)
+
+    if broken and all(_is_known(v) for v in violations) and search is not None:
         try:
             violations += search(ctx, disagreements, broken)
         except Exception as e:
